@@ -39,7 +39,7 @@ impl NsAttr {
     { unimplemented!() }
 }
 pub enum ParentItem { Element(Box<XmlElement>), Document, Other }
-pub struct XmlElement { pub prefix: Option<String>, pub ns_attrs: Vec<NsAttr>, pub parent: Option<ParentItem> }
+pub struct XmlElement { pub local_name: String, pub prefix: Option<String>, pub ns_attrs: Vec<NsAttr>, pub parent: Option<ParentItem> }
 // XmlNamespace information item
 pub struct XmlNamespace { pub prefix: Option<String>, pub namespace_name: String, pub implicit: bool }
 
@@ -275,6 +275,11 @@ impl XmlElement {
     #[verifier::external_body]
     pub fn shim_prefix_or_xmlns(&self) -> (r: &str) ensures r@ == self.name_key() { unimplemented!() /* self.prefix().unwrap_or("xmlns") */ }
 
+    #[verifier::external_body]
+    pub fn local_name(&self) -> (r: &str) ensures r@ == self.local_name@ { unimplemented!() }
+    #[verifier::external_body]
+    pub fn prefix(&self) -> (r: Option<&str>) ensures r is Some <==> self.prefix is Some, r is Some ==> r->Some_0@ == self.prefix->Some_0@ { unimplemented!() }
+
     //@@ namespaces
 
     //@@ in_scope_namespace
@@ -285,7 +290,7 @@ impl XmlElement {
 }
 
 // an attribute: a namespace declaration itself, or an ordinary attribute with an optional prefix and an owner element
-pub struct XmlAttribute { pub is_ns: bool, pub prefix: Option<String>, pub owner: Option<XmlElement> }
+pub struct XmlAttribute { pub local_name: String, pub is_ns: bool, pub prefix: Option<String>, pub owner: Option<XmlElement> }
 pub uninterp spec fn xmlns_ns() -> Seq<char>;   // http://www.w3.org/2000/xmlns/
 impl NamespaceUri {
     #[verifier::external_body]
@@ -299,11 +304,68 @@ pub fn shim_ok_or_isolated(e: Option<&XmlElement>) -> (r: error::Result<&XmlElem
     ensures r is Ok <==> e is Some, r is Ok ==> r->Ok_0 == e->Some_0,
 { match e { Some(v) => Ok(v), None => Err(error::Error::IsolatedNode) } }
 impl XmlAttribute {
+    #[verifier::external_body]
+    pub fn local_name(&self) -> (r: &str) ensures r@ == self.local_name@ { unimplemented!() }
+    #[verifier::external_body]
+    pub fn prefix(&self) -> (r: Option<&str>) ensures r is Some <==> self.prefix is Some, r is Some ==> r->Some_0@ == self.prefix->Some_0@ { unimplemented!() }
+    // Attribute::owner_element: the element the attribute is attached to, or IsolatedNode
+    pub fn owner_element(&self) -> (r: error::Result<&XmlElement>) ensures r is Ok <==> self.owner is Some, r is Ok ==> *r->Ok_0 == self.owner->Some_0
+    { match self.owner.as_ref() { Some(v) => Ok(v), None => Err(error::Error::IsolatedNode) } }
     pub fn namespace(&self) -> (r: bool) ensures r == self.is_ns { self.is_ns }
     pub fn element(&self) -> (r: Option<&XmlElement>) ensures r is Some <==> self.owner is Some, r is Some ==> *r->Some_0 == self.owner->Some_0
     { self.owner.as_ref() }
 
     //@@ attribute_namespace_name
+}
+
+// ---- the DOM layer (dom/src/lib.rs): what XPath name tests see ----
+pub mod dom {
+    use vstd::prelude::*;
+    use crate::*;
+    pub type ExpandedName = (String, Option<String>, Option<String>);   // dom/src/lib.rs
+    // dom::XmlNamespace wraps the information item
+    pub struct XmlNamespace { pub namespace: crate::XmlNamespace }
+    impl XmlNamespace {
+        // Node::node_name: the prefix, or "xmlns" for the default namespace; Node::node_value: the URI
+        #[verifier::external_body]
+        pub fn node_name(&self) -> (r: String) ensures r@ == key_of(self.namespace) { unimplemented!() }
+        #[verifier::external_body]
+        pub fn node_value(&self) -> (r: error::Result<Option<String>>) ensures r is Ok && r->Ok_0 is Some && r->Ok_0->Some_0@ == self.namespace.namespace_name@ { unimplemented!() }
+    }
+    pub open spec fn wrapped(d: Seq<XmlNamespace>, i: Seq<crate::XmlNamespace>) -> bool { d.len() == i.len() && forall|k: int| 0 <= k < d.len() ==> (#[trigger] d[k]).namespace == i[k] }
+    // .iter().map(XmlNamespace::from).collect()
+    #[verifier::external_body]
+    pub fn shim_wrap_all(items: Vec<crate::XmlNamespace>) -> (r: Vec<XmlNamespace>) ensures wrapped(r@, items@) { unimplemented!() }
+    // namespaces.iter().find(|v| v.node_name() == prefix): the first item with that name
+    #[verifier::external_body]
+    pub fn shim_find_named<'a>(items: &'a Vec<XmlNamespace>, name: &String) -> (r: Option<&'a XmlNamespace>)
+        ensures match r {
+            Some(n) => exists|k: int| 0 <= k < items@.len() && items@[k] == *n && key_of(n.namespace) == name@,
+            None => forall|k: int| 0 <= k < items@.len() ==> key_of((#[trigger] items@[k]).namespace) != name@,
+        },
+    { unimplemented!() }
+    #[verifier::external_body]
+    pub fn shim_key_string(p: Option<&str>) -> (r: String) ensures r@ == (match p { Some(x) => x@, None => xmlns_key() }) { unimplemented!() /* p.unwrap_or("xmlns").to_string() */ }
+    pub open spec fn opt_view(v: Option<String>) -> Option<Seq<char>> { match v { Some(u) => Some(u@), None => None } }
+
+    pub struct XmlElement { pub element: crate::XmlElement }
+    impl XmlElement {
+        pub open spec fn scope_of(items: Seq<XmlNamespace>, e: crate::XmlElement) -> bool { exists|i: Seq<crate::XmlNamespace>| in_scope_ok(i, e) && wrapped(items, i) }
+        //@@ dom_in_scope_namespace
+
+        //@@ dom_element_as_expanded_name
+    }
+    // XmlElement::from(element).in_scope_namespace(): the function above on the owner element (same contract, assumed here
+    // because the model cannot build a wrapper around a borrowed element)
+    #[verifier::external_body]
+    pub fn in_scope_of(e: &crate::XmlElement) -> (r: error::Result<Vec<XmlNamespace>>)
+        requires wf(*e),
+        ensures r is Ok ==> XmlElement::scope_of(r->Ok_0@, *e),
+    { unimplemented!() }
+    pub struct XmlAttr { pub attribute: crate::XmlAttribute }
+    impl XmlAttr {
+        //@@ dom_attr_as_expanded_name
+    }
 }
 
 } // verus!
@@ -471,6 +533,34 @@ def build():
         ensures=[('C10:the_default_namespace_never_applies_to_attributes', '!self.is_ns && self.prefix is None ==> r is Ok && r->Ok_0 is None'),
                  ('C10:a_prefixed_attribute_resolves_in_the_scope_of_its_element', '!self.is_ns && self.prefix is Some && self.owner is Some && r is Ok ==> uri_of(r->Ok_0) == resolve(self.owner->Some_0, self.prefix->Some_0@)'),
                  ('C10:a_namespace_declaration_is_in_the_xmlns_namespace', 'self.is_ns ==> r is Ok && uri_of(r->Ok_0) == Some(xmlns_ns())')])
+    FD = 'dom/src/lib.rs'
+    R_KEYSTR = Rule('R48', r'self\s*\.(element|attribute)\s*\.borrow\(\)\s*\.prefix\(\)\s*\.unwrap_or\("xmlns"\)\s*\.to_string\(\)', lambda m: f'shim_key_string(self.{m.group(1)}.prefix())' + '\n' * m.group(0).count('\n'), 'prefix().unwrap_or("xmlns").to_string() -> shim: the key the name is looked up under')
+    R_LOCAL = Rule('R6', r'self\.(element|attribute)\.borrow\(\)\.local_name\(\)\.to_string\(\)', r'shim_to_string(self.\1.local_name())', 'str::to_string -> shim')
+    R_FIND = Rule('R48', r'namespaces\.iter\(\)\.find\(\|v\| v\.node_name\(\) == prefix\)', 'shim_find_named(&namespaces, &prefix)', 'iter().find(closure on node_name) -> shim: the first item with that name')
+    EXP = 'r is Ok ==> r->Ok_0 is Some && r->Ok_0->Some_0.0@ == '
+    HINT_E = 'proof { let __i = choose|i: Seq<crate::XmlNamespace>| in_scope_ok(i, self.element) && wrapped(namespaces@, i); if resolve(self.element, prefix@) is Some { assert(has_key(__i, prefix@)); let j = choose|j: int| 0 <= j < __i.len() && key_of(#[trigger] __i[j]) == prefix@; assert(namespaces@[j].namespace == __i[j]); } assert forall|k: int| 0 <= k < namespaces@.len() implies resolve(self.element, key_of((#[trigger] namespaces@[k]).namespace)) == Some(namespaces@[k].namespace.namespace_name@) by { assert(namespaces@[k].namespace == __i[k]); } }'
+    fns['dom_in_scope_namespace'] = Fn(
+        FD, 'impl XmlElement', 'in_scope_namespace', props=P, safety_props=P, label='dom::XmlElement::in_scope_namespace',
+        rules=[Rule('R48', r'Ok\(self\s*\.element\s*\.borrow\(\)\s*\.in_scope_namespace\(\)\?\s*\.iter\(\)\s*\.map\(XmlNamespace::from\)\s*\.collect\(\)\)',
+                           lambda m: 'Ok(shim_wrap_all(self.element.in_scope_namespace()?))' + '\n' * m.group(0).count('\n'), 'RefCell borrow dropped (A4); iter().map(XmlNamespace::from).collect() -> shim: one wrapper per item, same order')],
+        requires=[('at_most_one_declaration_per_key_on_every_ancestor', 'wf(self.element)')],
+        ensures=[('C10:the_in_scope_namespaces_of_the_information_item_wrapped', 'r is Ok ==> XmlElement::scope_of(r->Ok_0@, self.element)')])
+    fns['dom_element_as_expanded_name'] = Fn(
+        FD, 'impl AsExpandedName for XmlElement', 'as_expanded_name', props=P, safety_props=P, label='dom::XmlElement::as_expanded_name', sig_rules=[PUB],
+        rules=[R_KEYSTR, R_LOCAL, R_BOR, R_FIND],
+        inject=[(r'let namespaces = self\.in_scope_namespace\(\)\?;', HINT_E)],
+        requires=[('at_most_one_declaration_per_key_on_every_ancestor', 'wf(self.element)')],
+        ensures=[('C10:local_part', EXP + 'self.element.local_name@'),
+                 ('C10:namespace_is_the_nearest_declaration_for_the_prefix_or_the_default_namespace', 'r is Ok ==> r->Ok_0 is Some && opt_view(r->Ok_0->Some_0.2) == resolve(self.element, self.element.name_key())')])
+    fns['dom_attr_as_expanded_name'] = Fn(
+        FD, 'impl AsExpandedName for XmlAttr', 'as_expanded_name', props=P, safety_props=P, label='dom::XmlAttr::as_expanded_name', sig_rules=[PUB],
+        rules=[R_KEYSTR, R_LOCAL, R_BOR, R_FIND,
+               Rule('R48', r'XmlElement::from\(element\)\.in_scope_namespace\(\)\?', 'in_scope_of(element)?', 'wrapper around the owner element + the method above -> the same contract on the borrowed element')],
+        inject=[(r'let namespaces = in_scope_of\(element\)\?;', HINT_E.replace('self.element', '(*element)'))],
+        requires=[('at_most_one_declaration_per_key_on_every_ancestor', 'self.attribute.owner is Some ==> wf(self.attribute.owner->Some_0)')],
+        ensures=[('C10:local_part', EXP + 'self.attribute.local_name@'),
+                 ('C10:the_default_namespace_never_applies_to_attributes', 'r is Ok && self.attribute.prefix is None ==> r->Ok_0 is Some && r->Ok_0->Some_0.2 is None'),
+                 ('C10:a_prefixed_attribute_resolves_in_the_scope_of_its_element', 'r is Ok && self.attribute.prefix is Some && self.attribute.owner is Some ==> r->Ok_0 is Some && opt_view(r->Ok_0->Some_0.2) == resolve(self.attribute.owner->Some_0, self.attribute.prefix->Some_0@)')])
     return ENV, fns
 
 
